@@ -143,7 +143,7 @@ def _filecheck_functions(ctx, want_steps):
 # ---------------------------------------------------------------- L1
 def correspondence(ctx):
     dis = []
-    items = _programs(ctx, ctx.n(14, 1200), "L1", True)
+    items = _programs(ctx, ctx.n(14, 300), "L1", True)
     steps = []
     for text, fn, ins, st in items:
         if st.error:
@@ -240,7 +240,7 @@ def _explain(st, ins, from_traced):
 
 
 def search(ctx, deep=False):
-    n = ctx.n(30, 2000) * (3 if deep else 1)
+    n = ctx.n(30, 600) * (3 if deep else 1)
     items = []
     for path, fn, ins in PROBES:
         text = open(path).read()
